@@ -6,7 +6,7 @@
 
 use std::collections::{HashMap, VecDeque};
 
-use grep_matcher::Matcher;
+use grep_matcher::{LineMatchKind, Matcher};
 use grep_regex::RegexMatcher;
 use regex_automata::dfa::{dense, Automaton, StartKind};
 use regex_automata::nfa::thompson;
@@ -398,7 +398,9 @@ pub fn check(case: &Case) -> Verdict {
                     if m.is_match(&w).unwrap_or(false) {
                         let mut with_term = w.clone();
                         with_term.push(pat.term.byte());
-                        if candidate_none(&m, &w) || candidate_none(&m, &with_term) {
+                        // (a matcher that withholds its terminator - haystack anchors - is only ever given
+            // lines without their terminator)
+            if candidate_none(&m, &w) || (advertised.is_some() && candidate_none(&m, &with_term)) {
                             return Verdict::Fail(nul_anchor_facts(
                                 Fail::new(format!(
                                     "claim 3 violated: is_match({:?}) is true but find_candidate_line passes over the line (none of the inner literals occurs in it)\n{}",
@@ -479,7 +481,7 @@ pub fn check(case: &Case) -> Verdict {
         if m.is_match(&w).unwrap_or(false) {
             let mut with_term = w.clone();
             with_term.push(pat.term.byte());
-            if candidate_none(&m, &w) || candidate_none(&m, &with_term) {
+            if candidate_none(&m, &w) || (advertised.is_some() && candidate_none(&m, &with_term)) {
                 return Verdict::Fail(nul_anchor_facts(
                     Fail::new(format!(
                         "claim 3 violated (sampled line): is_match({:?}) but find_candidate_line finds nothing in the line {} its terminator\n{}",
@@ -495,6 +497,62 @@ pub fn check(case: &Case) -> Verdict {
             }
         }
     }
+    // claim 3 in context: a matcher that advertises its line terminator is searched over whole
+    // buffers (the searcher's fast path: find_candidate_line from the end of the previous
+    // candidate's line); every sampled line that matches on its own must still be offered when
+    // it stands between two other lines
+    if advertised.is_some() {
+        for l in &case.lines {
+            let w: Vec<u8> = l.0.iter().copied().filter(|b| !tb.contains(b)).collect();
+            if !m.is_match(&w).unwrap_or(false) {
+                continue;
+            }
+            let term = pat.term.bytes();
+            let mut buf: Vec<u8> = term.to_vec();
+            let w_start = buf.len();
+            buf.extend_from_slice(&w);
+            let w_end = buf.len();
+            buf.extend_from_slice(term);
+            buf.extend_from_slice(term);
+            let mut pos = 0;
+            let mut offered = false;
+            let mut steps = 0;
+            while pos <= buf.len() && steps < 16 {
+                steps += 1;
+                let at = match m.find_candidate_line(&buf[pos..]) {
+                    Ok(Some(LineMatchKind::Confirmed(i))) | Ok(Some(LineMatchKind::Candidate(i))) => pos + i,
+                    _ => break,
+                };
+                if at >= w_start && at <= w_end {
+                    offered = true;
+                    break;
+                }
+                // continue after the line that contains `at`
+                let tbyte = *term.last().unwrap();
+                pos = buf[at.min(buf.len())..].iter().position(|b| *b == tbyte).map_or(buf.len() + 1, |k| at + k + 1);
+            }
+            if !offered {
+                return Verdict::Fail(nul_anchor_facts(
+                    Fail::new(format!(
+                        "claim 3 violated (in context): the matcher advertises its line terminator and is_match({:?}) holds, but a candidate search over the buffer {:?} (restarted after each offered line) never offers that line\n{}",
+                        Bs(w.clone()),
+                        Bs(buf.clone()),
+                        ctx()
+                    ))
+                    .fact("claim3")
+                    .fact("in-context"),
+                    pat,
+                    &h_hir,
+                    false,
+                ));
+            }
+            info.class("claim3_in_context_checked");
+        }
+    }
+    info.class_if(
+        h_hir.properties().look_set().contains(regex_syntax::hir::Look::Start) || h_hir.properties().look_set().contains(regex_syntax::hir::Look::End),
+        "haystack_anchor_in_pattern",
+    );
     info.class_if(pat.patterns.iter().any(|p| p.contains(['\r', '\n', '\0'])), "raw_control_byte_in_accepted_pattern");
     info.class_if(pat.ban_nul, "nul_banned");
     info.class_if(pat.word, "word");
@@ -590,6 +648,21 @@ pub fn gen_case(t: &mut Tape) -> Case {
         let cuts: Vec<usize> = p.char_indices().map(|(k, _)| k).chain(std::iter::once(p.len())).collect();
         let at = cuts[t.below(cuts.len())];
         p.insert_str(at, raw);
+    }
+    if !pat.fixed && t.chance(1, 8) {
+        // a haystack anchor on some paths through the pattern only (one alternation branch, an
+        // optional position): the matcher must then either withhold its line terminator or
+        // still offer every line that matches on its own
+        let i = t.below(pat.patterns.len());
+        let p = pat.patterns[i].clone();
+        let q = *t.pick(&["b", "ab", "c", "xy"]);
+        pat.patterns[i] = match t.below(5) {
+            0 => format!("\\A(?:{p})|{q}"),
+            1 => format!("{q}|(?:{p})\\z"),
+            2 => format!("(?:\\A|x)(?:{p})"),
+            3 => format!("(?:{p})(?:\\z|,)"),
+            _ => format!("(?:\\A)?(?:{p})\\z|{q}"),
+        };
     }
     // the way ripgrep builds its matcher whenever binary detection is on: NUL is banned
     // (patterns that must match it are rejected, classes containing it still match it)
